@@ -88,6 +88,11 @@ CHECKS = {
   "note": "Trusted: my misclosure model and readers; C10 covers the sub-matrix rule used when an observation is deleted from a correlated cluster. One known finding (angular observations are removed with the weighted term) is excluded by tag; equivalence is then checked against what gama really excluded.",
   "technique": "property-based metamorphic testing (Hypothesis): defect injection + reference misclosure model + delete-equivalence through the real binary and a library driver",
  },
+ "C19": {
+  "text": "Generated-input search on gama-g3: ECEF networks anywhere on the ellipsoid (equator, poles, antimeridian, global), points given as XYZ / B-L-H / not at all, fixed / free / constrained / unused n-e and u components, vectors (full, banded, multi-vector covariances), xyz, distances, heights, height differences, zenith angles, angles, instrument heights, deflections, d-m-s values, consistent and noisy, exact or perturbed given coordinates. Oracles: dumped design matrix and right-hand sides against my own (numerically differentiated) observation model; adjusted coordinates equal the generating ones for consistent observations; every algorithm against a numpy reference (parameters, equations, defect, redundancy, v'Pv, corrections, covariances, residuals, standard deviations) and pairwise; any permutation of points / clusters / observations (with their covariance rows) gives the same results; the --project-equations dump re-solved by numpy and by GNU_gama::Adj with the four algorithms (driver gdrv_g3adj) gives the printed corrections.",
+  "note": "Built by a sub-agent inside the framework, reviewed and calibrated by me. Trusted: my own geodesy (numpy), numpy SVD. Tolerances: half a printed digit plus 1e-8*cond (as C01) plus stated physical allowances (single linearisation, acos accuracy 1.5e-8 rad, neglected deflections in the partials). <azimuth> is not generated (the parser cannot read it: known finding). Two known findings (envelope rank / accuracy, gso defect with a dependent row) are excluded by their tags.",
+  "technique": "property-based testing (Hypothesis) of the real gama-g3 binary against a truth model, a numpy reference, metamorphic permutations and a differential re-solution of its dump",
+ },
  "C20": {
   "text": "Generated-input search at two levels. Library: rank-planted singular systems with resolving and provably non-resolving regularisation subsets through the four AdjBase solvers; after the expected bad-regularisation exception every lindep(i) is read and checked with numpy (exactly defect many, deleting them leaves full column rank). Network: (planted) determined networks with planted indeterminable parts (one-distance point, one-direction point, detached distance pair, detached levelling pair) through the real binary with all four algorithms: exactly the planted points are removed and reported, the rest equals the network without them, outputs hold no nan/inf; (free) free networks whose constrained coordinates are reduced until numpy says they cannot fix the datum: no algorithm may print an adjustment of the whole network, outcomes (refused / removed coordinate groups / results) must agree between algorithms.",
   "note": "Trusted: numpy SVD rank with the gap rule of C01; my network Jacobian for the datum analysis. Known finding: for ill-posed free networks the algorithms remove different points (excluded by tag, well-posed disagreement is still reported).",
